@@ -22,6 +22,9 @@ resf = V / "seeded" / "RESULTS.json"
 results = json.loads(resf.read_text()) if resf.exists() else {}
 for s in seeds:
     meta = json.loads((s / "meta.json").read_text())
+    if "neutralised" in str(meta.get("status", "")):
+        print("%-34s (neutralised by a later repair; skipped)" % s.name)
+        continue
     pids = meta.get("checks") or [meta["property"]]
     ok = subprocess.run(["git", "-C", "/repo", "apply", str(s / "patch.diff")]).returncode == 0
     if not ok:
